@@ -161,7 +161,7 @@ func (c *Ctx) ruleR02ab(ra, rb string) {
 				c.R.Violation(rb, fn+" parse call without own increment", fn, c.P.InstrPos(cl), fmt.Sprintf("memoizing parser calls a parser but %s: this activation is not counted, so left recursion through this call is never curtailed", why))
 				continue
 			}
-			if m.Get != nil && len(m.Get.Call.Args) == 4 && !sameSource(m.Get.Call.Args[1], idx) {
+			if m.Get != nil && len(m.GetArgs) == 4 && !sameSource(m.GetArgs[1], idx) {
 				c.R.Violation(rb, fn+" increments another index", fn, c.P.InstrPos(inc), "the counter incremented for the wrapped call is not the parser index used as the cache key")
 				continue
 			}
